@@ -149,7 +149,8 @@ def run(chk):
         return True
     # C09 keeps the cursor inside the buffer: non-negative coordinates may be assumed wherever they are read
     ip.invariants = [("caret::Caret", ("pos", "x"), 0, None), ("caret::Caret", ("pos", "y"), 0, None)] + list(P.TERMINAL_INVARIANTS[:2])
-    ip.mag_cfg = {"fields": frozenset(M_FIELDS), "variants": frozenset(M_VARIANTS), "calls": is_source, "prop": PROPAGATE}
+    ip.mag_cfg = {"fields": frozenset(M_FIELDS), "variants": frozenset(M_VARIANTS), "calls": is_source, "prop": PROPAGATE,
+                  "soft": {("caret::Caret", ("pos", "x")), ("caret::Caret", ("pos", "y"))}}
     chk.rules = ["R-MAG", "R-RECURSION", "R-PROGRESS"]
     chk.assumptions = list(P.ASSUMPTIONS) + [
         "a value is `bounded` when the abstract state proves it <= 65536 or <= (container length | size.width | size.height) + c",
@@ -161,6 +162,7 @@ def run(chk):
     roots = sorted(set(txt) | set(direct) | set(loaders) | set(gfx))
     roots = [r for r in roots if r in f.bodies]
     chk.floor("R-MAG", "entry points (text parsers, loaders, RIP/IGS)", len(roots), 30)
+    ip.mag_cfg["roots"] = frozenset(roots)
     reach = g.reachable(roots)
     bodies = [bid for bid in sorted(reach) if f.bodies[bid].kind in ("fn", "method", "closure")]
     chk.floor("R-MAG", "reachable bodies", len(bodies), 600)
@@ -206,7 +208,7 @@ def run(chk):
             if ident in seen:
                 continue
             seen.add(ident)
-            tainted = bool(o.raw and o.raw[0] == "mag" and len(o.raw) > 2 and o.raw[2])
+            tainted = bool(o.raw and o.raw[0] in ("mag", "maglo") and len(o.raw) > 2 and o.raw[2])
             if tainted:
                 chk.obligation(False)
                 ob = f.bodies[origin]
